@@ -159,4 +159,136 @@ def clientRun : List Nat → List ClientCall → List (List Nat)
   | _, [] => []
   | before, c :: cs => clientAfter before c :: clientRun (clientAfter before c) cs
 
+/-! ### the client on the wire (client.py `Proxy._pyroInvoke` 229-286, whole function; round 5)
+
+  The proxy's connection is a byte stream: replies the peer sent and the client has not read yet stay
+  on it (`inbox`).  A call reads the NEXT message, whichever call it answers; it accepts it only if it
+  carries the call's own sequence number and serializer.  A wait interrupted by an application
+  exception (not a CommunicationError: the proxy stays connected) leaves the reply unread. -/
+
+structure PeerReply where
+  forCall : Nat                 -- the sequence number the message carries
+  typeOk : Bool                 -- it is a MSG_RESULT
+  serOk : Bool                  -- serializer id equals the request's
+  anns : List Nat               -- annotation keys on it
+  stream : Bool := false        -- FLAGS_ITEMSTREAMRESULT
+  noStreamId : Bool := false    -- ... without a STRM annotation
+  excFlag : Bool := false       -- FLAGS_EXCEPTION: the payload is raised
+  excIsComm : Bool := false     -- ... and is an instance of CommunicationError
+  deriving Repr, DecidableEq
+
+/-- what the peer sends in answer to one request (`seqDelta = 0`: it answers with the request's seq) -/
+structure PeerSpec where
+  seqDelta : Nat
+  typeOk : Bool
+  serOk : Bool
+  anns : List Nat
+  stream : Bool := false
+  noStreamId : Bool := false
+  excFlag : Bool := false
+  excIsComm : Bool := false
+  deriving Repr, DecidableEq
+
+structure WCall where
+  releaseFirst : Bool           -- the application released the proxy before this call
+  hsOk : Bool                   -- a handshake inside this call is answered CONNECTOK (else CONNECTFAIL)
+  hsAnns : List Nat             -- annotation keys on that answer
+  oneway : Bool                 -- flags & FLAGS_ONEWAY after the method-name lookup
+  raw : Bool := false           -- proxy._pyroRawWireResponse
+  peer : Option PeerSpec        -- the peer's answer to this request (none: it sends nothing)
+  interrupted : Bool            -- an application exception interrupts the wait for the reply
+  deriving Repr, DecidableEq
+
+structure CState where
+  connected : Bool := false
+  seq : Nat := 0
+  inbox : List PeerReply := []
+  ra : List Nat := []           -- current_context.response_annotations (keys)
+  deriving Repr, DecidableEq
+
+/-- classes of exception that can leave the `try` block of `_pyroInvoke` -/
+inductive ExcCls where
+  | app            -- an application exception (signal handler, remote exception that is no CommunicationError)
+  | connClosed     -- errors.ConnectionClosedError (recv on a closed connection)
+  | protocol       -- errors.ProtocolError (recv_stub: unexpected message type; sequence check; stream without id)
+  | serialize      -- errors.SerializeError
+  | keyboard       -- KeyboardInterrupt
+  deriving Repr, DecidableEq
+
+inductive Exit where
+  | ret
+  | raised (c : ExcCls)
+  deriving Repr, DecidableEq
+
+inductive Recv where
+  | raised (c : ExcCls)
+  | msg (r : PeerReply)
+  deriving Repr, DecidableEq
+
+def releaseOp (s : CState) : CState := { s with connected := false, inbox := [] }
+
+/-- `__pyroCreateConnection` as far as this state is concerned (client.py 296-357): CONNECTFAIL raises and
+    leaves the proxy unconnected; CONNECTOK records the answer's annotations if there are any -/
+def connectOp (s : CState) (c : WCall) : CState × Bool :=
+  if c.hsOk then
+    ({ s with connected := true, inbox := [], ra := if !c.hsAnns.isEmpty then c.hsAnns else s.ra }, true)
+  else (s, false)
+
+def mkReply (seq : Nat) (p : PeerSpec) : PeerReply :=
+  ⟨seq + p.seqDelta, p.typeOk, p.serOk, p.anns, p.stream, p.noStreamId, p.excFlag, p.excIsComm⟩
+
+/-- `self._pyroConnection.send(msg.data)`: the peer's answer (if any) is queued behind what is unread -/
+def sendOp (s : CState) (c : WCall) : CState :=
+  { s with inbox := s.inbox ++ (c.peer.map (mkReply s.seq)).toList }
+
+/-- `protocol.recv_stub(conn, [MSG_RESULT])` -/
+def recvOp (s : CState) (c : WCall) : CState × Recv :=
+  if c.interrupted then (s, .raised .app) else
+  match s.inbox with
+  | [] => (s, .raised .connClosed)
+  | r :: rest => if r.typeOk then ({ s with inbox := rest }, .msg r) else (s, .raised .protocol)
+
+def nextSeq (n _mask : Nat) : Nat := n + 1     -- wrap-around after 65536 calls is outside the model
+
+/-- `except (errors.CommunicationError, KeyboardInterrupt): self._pyroRelease(); raise` -/
+def handlerCatchesModel : ExcCls → Bool
+  | .app => false
+  | _ => true
+
+def tryRelease (catches : ExcCls → Bool) (x : CState × Exit) : CState :=
+  match x with
+  | (s, .raised e) => if catches e then releaseOp s else s
+  | (s, .ret) => s
+
+/-- the `try` block of `_pyroInvoke`: send, then (unless oneway) read ONE message and validate it -/
+def invokeBody (s : CState) (c : WCall) : CState × Exit :=
+  let s := sendOp s c
+  if c.oneway then (s, .ret) else
+  match recvOp s c with
+  | (s, .raised e) => (s, .raised e)
+  | (s, .msg r) =>
+    if r.forCall != s.seq then (s, .raised .protocol) else
+    if !r.serOk then (s, .raised .serialize) else
+    let s := if !r.anns.isEmpty then { s with ra := r.anns } else s
+    if c.raw then (s, .ret) else
+    if r.stream then (if r.noStreamId then (s, .raised .protocol) else (s, .ret)) else
+    if r.excFlag then (s, .raised (if r.excIsComm then .connClosed else .app)) else (s, .ret)
+
+/-- hand-written model of `_pyroInvoke`: the state after the call -/
+def pyroInvoke (s : CState) (c : WCall) : CState :=
+  let s := { s with ra := [] }
+  match (if s.connected then (s, true) else connectOp s c) with
+  | (s, false) => s
+  | (s, true) =>
+    let s := { s with seq := nextSeq s.seq 65535 }
+    tryRelease handlerCatchesModel (invokeBody s c)
+
+def wcall (s : CState) (c : WCall) : CState :=
+  pyroInvoke (if c.releaseFirst then releaseOp s else s) c
+
+/-- the states after each call of a history -/
+def wrun : CState → List WCall → List CState
+  | _, [] => []
+  | s, c :: cs => wcall s c :: wrun (wcall s c) cs
+
 end Pyro.Context
